@@ -16,6 +16,7 @@ Vocabulary (defined in Model/CellRecord.lean and Lemmas/CellRecord.lean):
   `r.project`             the 16 fields the library interprets, picked by flag bit
 -/
 import NumbersModel.Lemmas.CellRecord
+import NumbersModel.Lemmas.TrCellRec
 namespace NumbersModel.Props.C04
 open NumbersModel NumbersModel.CellRecord
 
@@ -144,5 +145,51 @@ theorem pinned_richtext_shifts_fields :
 theorem pinned_late_skip_misreads_formula :
     (decodePinned (specEncode specWitness)).map (fun d => (d.ids.formula, d.ids.suggest))
       = .ok (some 7, some 10) := by decide
+
+/-! ### the clauses over the field walk REGENERATED FROM THE SOURCE (`Gen/TrCellRec.lean`, harness/py2lean.py group `CellRec`)
+
+`Gen.T.from_storage_fields` is `Cell._from_storage` up to `cell_type = buffer[1]`, translated statement by statement from `cell.py`
+on every check run: the version check, `flags = unpack("<i", buffer[8:12])[0]`, the nineteen `if flags & mask:` blocks in source
+order with Python ints and slices (the 0x1 / 0x2 / 0x4 payloads handed on uninterpreted by the parameters `readD128` /
+`readDouble`, the ids read with `unpack("<i", …)`, the 0x80 / 0x100 / 0x800 fields skipped in place).  `finishDecode` is the rest
+of the model's decoder (class dispatch, `_extras`). -/
+namespace Src
+open NumbersModel.TrCellRec
+
+/-- the translated field walk IS the model's (`decodeFields` behind `fieldsView`), for every buffer -/
+theorem src_from_storage_fields_eq_model (buf : Bytes) :
+    Gen.T.from_storage_fields readD128 readDouble buf = fieldsView buf :=
+  from_storage_fields_eq_model buf
+
+/-- … and the model's decoder is that walk followed by the dispatch -/
+theorem src_from_storage_eq_model (buf : Bytes) :
+    Gen.T.from_storage_fields readD128 readDouble buf >>= finishDecode buf = decode buf :=
+  from_storage_eq_model buf
+
+/-- `decode_encode` with the field walk of the source as it is now: every encodable cell comes back field by field -/
+theorem src_decode_encode (c : Cell) (he : Encodable c) (hr : IdsInRange c.ids) :
+    ∃ b, encode c = .ok (some b) ∧
+      Gen.T.from_storage_fields readD128 readDouble b >>= finishDecode b = .ok (view c) := by
+  obtain ⟨b, h1, h2⟩ := decode_encode c he hr
+  exact ⟨b, h1, by rw [from_storage_eq_model, h2]⟩
+
+/-- `decode_specEncode` with the translated field walk: every layout-conformant record (all 2^21 flag subsets, any trailing
+    bytes) is read field by field, uninterpreted fields skipped in place -/
+theorem src_decode_specEncode (r : SpecRecord) (hwf : r.WF) (rest : Bytes) :
+    Gen.T.from_storage_fields readD128 readDouble (specEncode r ++ rest) >>= finishDecode (specEncode r ++ rest)
+      = (dispatch r.ctype r.project).bind
+          (fun k => .ok (assemble k r.project (leNat r.extras) (flagsOf r.fields))) := by
+  rw [from_storage_eq_model]
+  exact decode_specEncode r hwf rest
+
+/-- non-vacuity: the translated walk runs (formula id behind a skipped 0x100 field; a truncated record; a foreign version) -/
+example : (Gen.T.from_storage_fields readD128 readDouble (specEncode specWitness)).map (fun v => (v.2.2.2.2.2.2.2.2.1, v.2.2.2.2.2.2.2.2.2.2.2.1))
+    = .ok (some 10, some 12) := by decide
+example : (Gen.T.from_storage_fields readD128 readDouble [5, 2, 0, 0, 0, 0, 0, 0, 1, 0, 0, 0, 7]).map (fun v => v.1)
+    = .error .IndexError := by decide
+example : (Gen.T.from_storage_fields readD128 readDouble [4, 2, 0, 0, 0, 0, 0, 0, 0, 0, 0, 0]).map (fun v => v.1)
+    = .error .UnsupportedError := by decide
+
+end Src
 
 end NumbersModel.Props.C04
